@@ -1,6 +1,6 @@
 /-
   C17 helper lemmas, part 4: one event seen by the mechanism (`actOf`/`memOf`) and by the
-  reference rules (`refStep`) agree.
+  reference rules (`refStep`) agree; the link invariant between indices and the reference.
 -/
 import Kopf.Lemmas.C17_Step
 namespace Kopf.C17
@@ -9,17 +9,20 @@ section Link
 variable {Id Res L K V O : Type} [DecidableEq Id] [DecidableEq Res] [DecidableEq L]
   [DecidableEq K] [DecidableEq O]
 
-theorem lastval_single {κ ν : Type} [DecidableEq κ] (k k' : κ) (v : ν) :
-    lastval k [(k', v)] = if k' = k then some v else none := by
-  simp [lastval]
+/-- mechanism's action vs. the reference's new contribution -/
+def Act.agrees (a : Act K V) (c c' : List (Option K × V)) : Prop :=
+  match a with
+  | .keep => c' = c
+  | .discard => c' = []
+  | .replace m => c' = m
 
-/-- The event's own object: memory and view after the mechanism's step are what the rules say. -/
+/-- The event's own object: the memory after the mechanism's step is the reference's exclusion
+    record, and the mechanism's action on the index is the rule the reference applies. -/
 theorem link_obj (cfg : List (Indexer Id Res L)) (bk : Nat) (s : State Id K V O)
     (e : Event Id Res L K V O) (c : Indexer Id Res L) (r : RefSt K V)
-    (old : Option K → O → Option V)
-    (hm : s.mem e.obj c.id = r.excl) (hv : ∀ k, old k e.obj = lastval k r.contrib) :
+    (hm : s.mem e.obj c.id = r.excl) :
     memOf cfg bk s e c = (refStep cfg bk c e.obj r e).excl ∧
-    ∀ k, (actOf cfg bk s e c).view e.obj old k e.obj = lastval k (refStep cfg bk c e.obj r e).contrib := by
+    (actOf cfg bk s e c).agrees r.contrib (refStep cfg bk c e.obj r e).contrib := by
   have hh0 : hOf s e c = HState.ofOpt r.excl := by
     simp [hOf, hstateOf, hm]
   unfold memOf actOf refStep invoked
@@ -27,7 +30,7 @@ theorem link_obj (cfg : List (Indexer Id Res L)) (bk : Nat) (s : State Id K V O)
   simp only [ne_eq, not_true_eq_false, if_false]
   by_cases hh : cfg.any (fun c' => decide (c'.res = e.res)) = true
   · by_cases hd : e.deleted = true
-    · simp [hh, hd, Act.view, lastval]
+    · simp [hh, hd, Act.agrees]
     · have hd' : e.deleted = false := by simpa using hd
       by_cases hsel : c.selects e = true
       · generalize HState.ofOpt r.excl = h
@@ -38,49 +41,49 @@ theorem link_obj (cfg : List (Indexer Id Res L)) (bk : Nat) (s : State Id K V O)
           cases hr : c.retries with
           | none =>
             cases hsc : e.script c.id with
-            | dict m => simp [Act.view]
-            | scalar v => simp [Act.view]
-            | none => simp [Act.view, hv]
-            | permErr => simp [Act.view, lastval]
-            | tempErr d => simp [Act.view, lastval]
+            | dict m => simp [Act.agrees]
+            | scalar v => simp [Act.agrees]
+            | none => simp [Act.agrees]
+            | permErr => simp [Act.agrees]
+            | tempErr d => simp [Act.agrees]
             | otherErr =>
               cases hmode : c.errors with
-              | none => simp [Act.view, hv]
-              | some md => cases md <;> simp [Act.view, hv, lastval]
+              | none => simp [Act.agrees]
+              | some md => cases md <;> simp [Act.agrees]
           | some n =>
             by_cases hlim : h.retries ≥ n
-            · simp [hlim, Act.view, lastval]
+            · simp [hlim, Act.agrees]
             · have hlim' : ¬ n ≤ h.retries := hlim
               by_cases hla : h.retries + 1 ≥ n
               · cases hsc : e.script c.id with
-                | dict m => simp [hlim', Act.view]
-                | scalar v => simp [hlim', Act.view]
-                | none => simp [hlim', Act.view, hv]
-                | permErr => simp [hlim', Act.view, lastval]
-                | tempErr d => simp [hlim', hla, Act.view, lastval]
+                | dict m => simp [hlim', Act.agrees]
+                | scalar v => simp [hlim', Act.agrees]
+                | none => simp [hlim', Act.agrees]
+                | permErr => simp [hlim', Act.agrees]
+                | tempErr d => simp [hlim', hla, Act.agrees]
                 | otherErr =>
                   cases hmode : c.errors with
-                  | none => simp [hlim', Act.view, hv]
-                  | some md => cases md <;> simp [hlim', hla, Act.view, hv, lastval]
+                  | none => simp [hlim', Act.agrees]
+                  | some md => cases md <;> simp [hlim', hla, Act.agrees]
               · have hla' : ¬ n ≤ h.retries + 1 := hla
                 cases hsc : e.script c.id with
-                | dict m => simp [hlim', Act.view]
-                | scalar v => simp [hlim', Act.view]
-                | none => simp [hlim', Act.view, hv]
-                | permErr => simp [hlim', Act.view, lastval]
-                | tempErr d => simp [hlim', hla', Act.view, lastval]
+                | dict m => simp [hlim', Act.agrees]
+                | scalar v => simp [hlim', Act.agrees]
+                | none => simp [hlim', Act.agrees]
+                | permErr => simp [hlim', Act.agrees]
+                | tempErr d => simp [hlim', hla', Act.agrees]
                 | otherErr =>
                   cases hmode : c.errors with
-                  | none => simp [hlim', Act.view, hv]
-                  | some md => cases md <;> simp [hlim', hla', Act.view, hv, lastval]
+                  | none => simp [hlim', Act.agrees]
+                  | some md => cases md <;> simp [hlim', hla', Act.agrees]
         · have haw' : h.awake e.t = false := by simpa using haw
-          simp [hh, hd', hsel, haw', Act.view, lastval]
+          simp [hh, hd', hsel, haw', Act.agrees]
       · have hsel' : c.selects e = false := by simpa using hsel
-        simp [hh, hd', hsel', Act.view, lastval, hm]
+        simp [hh, hd', hsel', Act.agrees, hm]
   · have hh' : cfg.any (fun c' => decide (c'.res = e.res)) = false := by simpa using hh
     by_cases hd : e.deleted = true
-    · simp [hh', hd, Act.view, hv]
-    · simp [hh', hd, Act.view, hv, hm]
+    · simp [hh', hd, Act.agrees]
+    · simp [hh', hd, Act.agrees, hm]
 
 /-- Other objects: the rules leave them alone. -/
 theorem refStep_other (cfg : List (Indexer Id Res L)) (bk : Nat) (c : Indexer Id Res L) (o : O)
@@ -88,9 +91,128 @@ theorem refStep_other (cfg : List (Indexer Id Res L)) (bk : Nat) (c : Indexer Id
   unfold refStep
   simp [Ne.symm h]
 
-theorem view_other (a : Act K V) (obj : O) (old : Option K → O → Option V) (k : Option K) (o : O)
-    (h : o ≠ obj) : a.view obj old k o = old k o := by
+theorem view_other (veq : V → V → Bool) (a : Act K V) (obj : O) (old : Option K → O → Option V)
+    (k : Option K) (o : O) (h : o ≠ obj) : a.view veq obj old k o = old k o := by
   cases a <;> simp [Act.view, h]
+
+/-- "stored value vs. latest documented value": equal, or the stored one is an older result that
+    Python's `==` (`veq`) could not tell from the latest one (`Store._replace` keeps it then). -/
+def Rel (veq : V → V → Bool) : Option V → Option V → Prop
+  | none, none => True
+  | some v', some v => v' = v ∨ veq v' v = true
+  | _, _ => False
+
+omit [DecidableEq K] [DecidableEq O] in
+theorem Rel.refl (veq : V → V → Bool) (x : Option V) : Rel veq x x := by
+  cases x <;> simp [Rel]
+
+omit [DecidableEq K] [DecidableEq O] in
+/-- with an equality test that only identifies identical values the relation is equality -/
+theorem Rel.eq_of_lawful {veq : V → V → Bool} (hveq : ∀ a b, veq a b = true → a = b)
+    {x y : Option V} (h : Rel veq x y) : x = y := by
+  cases x <;> cases y <;> simp [Rel] at h ⊢
+  rcases h with h | h
+  · exact h
+  · exact hveq _ _ h
+
+theorem foldVal_rel {κ : Type} [DecidableEq κ] (veq : V → V → Bool) (k : κ) (m : List (κ × V)) :
+    ∀ cur : Option V, k ∈ m.map Prod.fst → Rel veq (foldVal veq k m cur) (lastval k m) := by
+  induction m with
+  | nil => intro cur h; simp at h
+  | cons p r ih =>
+    obtain ⟨k', v⟩ := p
+    intro cur h
+    simp only [foldVal, lastval]
+    by_cases hkr : k ∈ r.map Prod.fst
+    · have := ih (if k' = k then some (keepOld veq cur v) else cur) hkr
+      have hs := (lastval_isSome k r).2 hkr
+      cases hl : lastval k r with
+      | none => simp [hl] at hs
+      | some x => simpa [hl] using this
+    · have hk : k' = k := by
+        simp only [List.map_cons, List.mem_cons] at h
+        rcases h with h | h
+        · exact h.symm
+        · exact absurd h hkr
+      rw [foldVal_not_mem veq k r _ hkr, lastval_none_of_not_mem k r hkr]
+      simp only [hk, if_true]
+      unfold keepOld
+      cases cur with
+      | none => simp [Rel]
+      | some v' =>
+        by_cases hv : veq v' v = true
+        · simp [hv, Rel]
+        · simp [hv, Rel]
+
+/-- from agreement in kind to the value relation -/
+theorem rel_of_agrees (veq : V → V → Bool) (a : Act K V) (c c' : List (Option K × V)) (obj : O)
+    (old : Option K → O → Option V) (ha : a.agrees c c')
+    (hv : ∀ k, Rel veq (old k obj) (lastval k c)) (k : Option K) :
+    Rel veq (a.view veq obj old k obj) (lastval k c') := by
+  cases a with
+  | keep => simp only [Act.agrees] at ha; subst ha; simpa [Act.view] using hv k
+  | discard => simp only [Act.agrees] at ha; subst ha; simp [Act.view, lastval, Rel]
+  | replace m =>
+    simp only [Act.agrees] at ha; subst ha
+    simp only [Act.view, if_true]
+    by_cases hk : k ∈ c'.map Prod.fst
+    · simp only [hk, if_true]
+      exact foldVal_rel veq k c' _ hk
+    · rw [lastval_none_of_not_mem k c' hk]
+      simp [hk, Rel]
+
+/-- the index/reference link maintained by every step -/
+def Link (veq : V → V → Bool) (cfg : List (Indexer Id Res L)) (s : State Id K V O)
+    (R : Indexer Id Res L → O → RefSt K V) : Prop :=
+  ∀ c ∈ cfg, ∀ o, s.mem o c.id = (R c o).excl ∧
+    ∀ k, Rel veq ((s.ixs c.id).val k o) (lastval k (R c o).contrib)
+
+theorem mirror_gen (veq : V → V → Bool) (cfg : List (Indexer Id Res L)) (bk : Nat)
+    (hnd : (cfg.map (·.id)).Nodup) (evs : List (Event Id Res L K V O)) :
+    ∀ (s : State Id K V O) (R : Indexer Id Res L → O → RefSt K V), s.InvAll → Link veq cfg s R →
+      ∃ s', run veq cfg bk s evs = some s' ∧ s'.InvAll ∧
+        Link veq cfg s' (fun c o => refRun cfg bk c o (R c o) evs) := by
+  induction evs with
+  | nil => intro s R hi hl; exact ⟨s, rfl, hi, hl⟩
+  | cons e es ih =>
+    intro s R hi hl
+    obtain ⟨s1, h1, h2, h3, h4, h5⟩ := step_spec veq cfg bk hnd s e hi
+    have hl1 : Link veq cfg s1 (fun c o => refStep cfg bk c o (R c o) e) := by
+      intro c hc o
+      by_cases ho : o = e.obj
+      · subst ho
+        obtain ⟨hm, hv⟩ := hl c hc e.obj
+        obtain ⟨a, b⟩ := link_obj cfg bk s e c (R c e.obj) hm
+        refine ⟨by rw [h4 c hc]; exact a, ?_⟩
+        intro k
+        rw [h3 c hc k e.obj]
+        exact rel_of_agrees veq _ _ _ e.obj _ b hv k
+      · obtain ⟨hm, hv⟩ := hl c hc o
+        simp only [refStep_other cfg bk c o (R c o) e ho]
+        refine ⟨by rw [h5 o ho]; exact hm, ?_⟩
+        intro k
+        rw [h3 c hc k o, view_other _ _ _ _ _ _ ho]
+        exact hv k
+    obtain ⟨s', g1, g2, g3⟩ := ih s1 _ h2 hl1
+    exact ⟨s', by simp [run, h1, g1], g2, g3⟩
+
+omit [DecidableEq Id] [DecidableEq Res] [DecidableEq L] in
+theorem link_init (veq : V → V → Bool) (cfg : List (Indexer Id Res L)) :
+    Link veq cfg (State.init : State Id K V O) (fun _ _ => RefSt.init) := by
+  intro c _ o
+  refine ⟨rfl, ?_⟩
+  intro k
+  simp [State.init, Index.val, Index.empty, RefSt.init, lastval, Rel]
+
+/-- the per-index effect of one step, extracted from `step_spec` -/
+theorem view_of_step (veq : V → V → Bool) (cfg : List (Indexer Id Res L)) (bk : Nat)
+    (hnd : (cfg.map (·.id)).Nodup)
+    (s s' : State Id K V O) (e : Event Id Res L K V O) (hi : s.InvAll)
+    (hs : step veq cfg bk s e = some s') (c : Indexer Id Res L) (hc : c ∈ cfg) (k : Option K) (o : O) :
+    (s'.ixs c.id).val k o = (actOf cfg bk s e c).view veq e.obj (s.ixs c.id).val k o := by
+  obtain ⟨s1, h1, _, h3, _, _⟩ := step_spec veq cfg bk hnd s e hi
+  rw [hs] at h1; cases h1
+  exact h3 c hc k o
 
 end Link
 end Kopf.C17
